@@ -272,6 +272,52 @@ package recordio
 //@   fresh r0
 //@   modifies nothing
 
+// The counting reader below a FileReader: Count is the number of bytes handed out so far - a byte or a block is counted exactly
+// when it was delivered without an error (SkipNext computes file offsets from differences of this counter).
+//@ func (*CountingBufferedReader).ReadByte
+//@   props C04 C12
+//@   requires c.r != nil && c.count < 18446744073709551615
+//@   exit [C04:result-passed-on] r0 == callres(ByteReaderReset.ReadByte, 0, 0) && r1 == callres(ByteReaderReset.ReadByte, 0, 1)
+//@   exit [C04:a-delivered-byte-is-counted] (r1 == nil ==> c.count == old(c.count) + 1) && (r1 != nil ==> c.count == old(c.count))
+
+//@ func (*CountingBufferedReader).Read
+//@   props C04 C12
+//@   requires c.r != nil
+//@   exit [C04:result-passed-on] n == callres(ByteReaderReset.Read, 0, 0) && err == callres(ByteReaderReset.Read, 0, 1)
+//@   exit [C04:delivered-bytes-are-counted] (err == nil && 0 <= n && old(c.count) + n <= 18446744073709551615 ==> c.count == old(c.count) + n) && (err != nil ==> c.count == old(c.count))
+
+//@ func (*CountingBufferedReader).Count
+//@   props C04 C12
+//@   ensures r0 == c.count
+//@   modifies nothing
+
+//@ func NewCountingByteReader
+//@   props C04 C12
+//@   ensures [starts-at-zero] r0 != nil && asType(*CountingBufferedReader, r0).count == 0 && asType(*CountingBufferedReader, r0).r == reader
+//@   fresh r0
+//@   modifies nothing
+
+// The byte reader of the header parser records every byte it hands out; the header checksum is taken over exactly the bytes
+// recorded since the last Reset (C12: a checksum over fewer or other bytes would accept damaged headers).
+//@ func (*checksumByteReader).ReadByte
+//@   props C12 C04 C09
+//@   exit [C12:source-error-passed-on] callres(ByteReader.ReadByte, 0, 1) != nil ==> r1 == callres(ByteReader.ReadByte, 0, 1) && h.idx == old(h.idx)
+//@   exit [C12:byte-recorded-and-returned] r1 == nil ==> r0 == callres(ByteReader.ReadByte, 0, 0) && h.idx == old(h.idx) + 1 && old(h.idx) < len(h.bytes) &&
+//@        h.bytes[old(h.idx)] == r0
+//@   exit [C12:full-record-buffer-is-an-error] callres(ByteReader.ReadByte, 0, 1) == nil && old(h.idx) >= len(h.bytes) ==> r1 != nil && h.idx == old(h.idx)
+
+//@ func (*checksumByteReader).Reset
+//@   props C12 C04 C09
+//@   ensures [starts-a-new-header] h.idx == 0
+//@   ensures [C12:hash-state-cleared] hsum(h.crc) == 0
+//@   modifies h.idx, hsum(h.crc)
+
+//@ func (*checksumByteReader).Checksum
+//@   props C12 C04 C09
+//@   call 0 of Hash32.Write: assert [C12,C09:hashes-exactly-the-bytes-recorded] arr(arg0) == arr(h.bytes) && off(arg0) == off(h.bytes) && len(arg0) == h.idx
+//@   exit [C12:sum-of-what-was-hashed] r1 == nil ==> called(Hash32.Sum32, 0) && r0 == callres(Hash32.Sum32, 0, 0)
+//@   ensures [recording-untouched] h.idx == old(h.idx)
+
 //@ func (*checksumByteReader).Count
 //@   props C12
 //@   ensures r0 == h.idx
@@ -304,8 +350,8 @@ package recordio
 
 // helpers of the positional read: they allocate, nothing else
 //@ func newChecksumByteReader
-//@   props C18
-//@   ensures r0 != nil
+//@   props C18 C12 C04
+//@   ensures [assembled-over-the-source-and-the-buffer] r0 != nil && r0.crc != nil && r0.ByteReader == r && r0.idx == 0 && r0.bytes === cachedBytes && hsum(r0.crc) == 0
 //@   fresh r0
 //@   modifies nothing
 
